@@ -50,7 +50,14 @@ SPEC = {
              "(measured table OUTSIDE) and otherwise the file must load into a fresh configuration holding an equal "
              "value of the same types (only JSON/BSON tuple -> list allowed) -- and secrets of UTF-8 length "
              "0,1,15,16,17,31,32,33,48 (2-byte characters) x aes/best/xor at the root, in a sub-configuration, two "
-             "levels deep and in list items, with an existing and a freshly created key file. non-trivial = the destination existed before or a fault was injected; "
+             "levels deep and in list items, with an existing and a freshly created key file; typed field kinds, each at "
+             "the root, in a sub-configuration, two levels deep and in list items, x 5 formats: BytesField base64 and hex "
+             "with values whose base64 text has '+', '/', '=' padding of length 0/1/2, empty bytes, typed lists and dicts of "
+             "them; StringField with leading / trailing / inner blanks, tabs, newlines, blank-only, empty, no-break spaces, "
+             "CR (not under XML), typed lists and dicts of them; FloatField inf / -inf / nan / -0.0 / 1e300 / 5e-324 / 0.1 / "
+             "3.0 and lists of them (sign of zero compared); BoolField True/False next to IntField 1/0/-7/2^40; None in "
+             "every field type; empty typed list/dict -- reload into a fresh configuration, values compared with exact "
+             "types. non-trivial = the destination existed before or a fault was injected; "
              "distinct = distinct (schema, values, faults, world)"),
     "trusted_base": [KERNEL, "Print Assumptions: closed under the global context (no axioms)", TIE, HARNESS,
                      "modelled, not verified: the file system as a map path -> bytes with a set of unwritable paths; "
@@ -76,6 +83,10 @@ SPEC = {
                     "back with string keys ({1: 'a'} -> {'1': 'a'}; True -> 'true'/'True', None -> 'null'/'None'), and under "
                     "XML {None: 1} saves and loads back as {}. Generated untyped maps have string keys under json/bson/xml; "
                     "int keys are kept under yaml/pickle, where they round-trip (NOT_REPRESENTABLE in s_savefaults.py)",
+                    "observed, not counted: XML reads '\\r\\n' and '\\r' in a string back as '\\n' (line-end normalisation of XML; "
+                    "CR strings are generated for the other four formats only); a typed ListField / DictField that was never "
+                    "set holds None and loads back as [] / {} in every format (not generated). Every other typed kind of "
+                    "the matrix round-trips exactly in all five formats on the unchanged tree, nan, inf and -0.0 included",
                     "an empty SecureField value '' is stored as null and loads back as None: treated as equal",
                     "load_after_save is stated over a decoder assumed to invert the formatter (C04); equality of the "
                     "reloaded configuration is C02 and is only sampled here (oracle)"],
